@@ -187,7 +187,9 @@ def subbasins_pfafstetter(
                 if d0 < depth:  # next iter
                     labs.append((pfaf_int, d0 + 1))
     idxs1 = np.array(idxs, dtype=idxs_ds.dtype)
-    pfafbas = core.fillnodata_upstream(idxs_ds, seq, pfaf_branch, 0) % 10**depth
+    pfafbas = (core.fillnodata_upstream(idxs_ds, seq, pfaf_branch, 0) % 10**depth).astype(
+        np.int32
+    )
     return pfafbas, idxs1
 
 
